@@ -128,8 +128,13 @@ def errTag : Fail → String
   | .eof => "Io(UnexpectedEof)"
   | .panic s => "PANIC " ++ s
 
+/-- literals with a `*N` run of more than 200000 bytes are judged by the property oracle only (the
+    list-based model would need megabytes of stack) -/
+def hugeLiteral (s : String) : Bool :=
+  ((s.splitOn "*").drop 1).any fun t => ((String.ofList (t.toList.takeWhile Char.isDigit)).toNat?.getD 0) > 200000
+
 def opBlocksw (get : String → String) (profile : Profile) : String :=
-  if get "failat" != "" then "model-skip" else
+  if get "failat" != "" || hugeLiteral (get "list") then "model-skip" else
   let lits := ((get "list").splitOn ";").filter (· != "")
   match lits.mapM (parseBlock profile) with
   | none => "err Construct stage=construct"
